@@ -422,3 +422,114 @@ move: E; rewrite Hr addr0 plc_last // (Poly_divc Hall) -scalerAl Eadj => /scaler
 eexists; apply: E.
 by apply: expf_neq0; apply: last_canon_neq0.
 Qed.
+
+(* ------------------------------------------------------------------ completeness of the repaired predicate over Z *)
+Lemma udiv_loop_pseudo_total K q qd lcq : forall n dv rm, exists res, udiv_loop K false q qd lcq n dv rm = Some res.
+Proof. by elim=> [|n IH] dv rm /=; [eexists|apply: IH]. Qed.
+
+Lemma ulow_spec (l : seq Z) : (exists i, List.nth i l 0 <> 0) ->
+  [/\ forall i, (i < (ulow l).1)%N -> List.nth i l 0 = 0, List.nth (ulow l).1 l 0 = (ulow l).2 & (ulow l).2 <> 0].
+Proof.
+elim: l => [|c l IH] [i Hi]; first by case: i Hi.
+rewrite /=; case: Z.eqb_spec => [Ec|Hc]; last by split.
+have Hl : exists i, List.nth i l 0 <> 0.
+  by case: i Hi => [|i] /= Hi; [rewrite Ec in Hi|exists i].
+case: l IH Hl {Hi} => [|b l] IH Hl; first by case: Hl => [[|j]].
+case: (IH Hl); case: (ulow (b :: l)) => v a /= H1 H2 H3; split=> //.
+by case=> [|j] //= Hj; apply: H1.
+Qed.
+
+Lemma canon_has_nonzero (l : seq Z) : pnorm l = l -> l <> [::] -> exists i, List.nth i l 0 <> 0.
+Proof.
+move=> Hl Hl0; exists (udeg l); rewrite -last_nth_udeg //.
+by apply/eqP; apply: last_canon_neq0.
+Qed.
+
+(* lowest terms of a product in an integral domain *)
+Lemma low_coef_mul (D P : {poly Z}) vd vp :
+  (forall i, (i < vd)%N -> D`_i = 0) -> (forall i, (i < vp)%N -> P`_i = 0) ->
+  (forall i, (i < vd + vp)%N -> (D * P)`_i = 0) /\ (D * P)`_(vd + vp) = D`_vd * P`_vp.
+Proof.
+move=> HD HP; split.
+- move=> i Hi; rewrite coefM; apply: big1 => j _.
+  case: (ltnP j vd) => Hj; first by rewrite HD // mul0r.
+  by rewrite HP ?mulr0 //; move: (ltn_ord j); lia.
+- have Hvd : (vd < (vd + vp).+1)%N by lia.
+  rewrite coefM (bigD1 (Ordinal Hvd)) //= addKn.
+  rewrite big1 ?addr0 // => j Hj.
+  case: (ltngtP j vd) => Hjv; first by rewrite HD // mul0r.
+  + by rewrite HP ?mulr0 //; move: (ltn_ord j); lia.
+  + by case/negP: Hj; apply/eqP/val_inj.
+Qed.
+
+Lemma canon_size (l : seq Z) : pnorm l = l -> l <> [::] -> size (Poly l) = (udeg l).+1.
+Proof. by move=> Hl Hl0; rewrite size_Poly_pnorm Hl List_length_size udeg_size. Qed.
+
+Theorem udivides_Z_complete (p q : seq Z) : pnorm p = p -> pnorm q = q -> p <> [::] ->
+  (exists d : {poly Z}, Poly q = d * Poly p) -> udivides None false p q = Some true.
+Proof.
+move=> Hp Hq Hp0 [D0 HD]; rewrite /udivides.
+case Ep: p => [|a p'] //; rewrite -Ep.
+case Eq: q => [|b q'] //; rewrite -Eq.
+have Hq0 : q <> [::] by rewrite Eq.
+set adj := int_pow None _ _.
+have Eadj : adj = List.last p 0 ^+ (udeg q - udeg p).+1 by rewrite /adj /int_pow nat_N_Z -ZpowE.
+clearbody adj.
+have Hsp := canon_size Hp Hp0; have Hsq := canon_size Hq Hq0.
+have HP0 : Poly p != 0 by rewrite -size_poly_eq0 Hsp.
+have HQ0 : Poly q != 0 by rewrite -size_poly_eq0 Hsq.
+have HD0 : D0 != 0 by apply: contraNneq HQ0 => E0; rewrite HD E0 mul0r.
+(* degrees *)
+have Hdeg : (udeg p <= udeg q)%N.
+  have := size_mul HD0 HP0; rewrite -HD Hsq Hsp addnS /= => E.
+  have H0 : (0 < size D0)%N by rewrite size_poly_gt0.
+  by move: H0 E; move: (size D0) (udeg p) (udeg q) => n1 n2 n3; lia.
+case: Nat.ltb_spec => [Hlt|_]; first by move/leP: Hdeg; lia.
+(* lowest terms *)
+have [Hp1 Hp2 Hp3] := ulow_spec (canon_has_nonzero Hp Hp0).
+have [Hq1 Hq2 Hq3] := ulow_spec (canon_has_nonzero Hq Hq0).
+have HexD : exists i, D0`_i != 0 by exists (size D0).-1; rewrite -lead_coefE lead_coef_eq0.
+case: (ex_minnP HexD) => vd Hvd Hmin.
+have HDlow : forall i, (i < vd)%N -> D0`_i = 0.
+  by move=> i Hi; apply/eqP/negPn/negP => /Hmin; rewrite leqNgt Hi.
+have HPlow : forall i, (i < (ulow p).1)%N -> (Poly p)`_i = 0 by move=> i Hi; rewrite coef_PolyL Hp1.
+have [HQlow HQv] := low_coef_mul HDlow HPlow.
+rewrite -HD in HQlow HQv.
+have Hv : (ulow q).1 = (vd + (ulow p).1)%N.
+  case: (ltngtP (ulow q).1 (vd + (ulow p).1)%N) => // Hc.
+  - by move: (HQlow _ Hc); rewrite coef_PolyL Hq2 => /Hq3.
+  - move: HQv; rewrite !coef_PolyL Hq1 // Hp2 => /esym/eqP; rewrite mulf_eq0 (negbTE Hvd) /=.
+    by move/eqP/Hp3.
+case: Nat.ltb_spec => [Hlt|_]; first by move: Hlt; rewrite Hv; lia.
+have Hdiv : int_divides None false (ulow p).2 (ulow q).2.
+  apply/int_divides_Z_spec; exists D0`_vd.
+  by move: HQv; rewrite -Hv !coef_PolyL Hq2 Hp2.
+rewrite Hdiv /=.
+(* the pseudo-division answers, with remainder 0 and a quotient divisible by lc^N *)
+case Ed: (udiv_pseudo None q p) => [[d r]|]; last first.
+  move: Ed; rewrite /udiv_pseudo /udiv_general Ep -Ep.
+  case: Nat.ltb_spec => [Hlt|_]; first by move/leP: Hdeg; lia.
+  by case: (udiv_loop_pseudo_total None p (udeg p) (List.last p 0) (udeg q - udeg p).+1
+             (mkDense (List.repeat 0 (udeg q - udeg p).+1) 1) (mkDense (udense_of q) (udeg q).+1)) => [[dv' rm'] ->].
+have [E S] := udiv_pseudo_Z Hp Ed.
+move: E; rewrite plc_last // -Eadj HD => E.
+have EX : (adj *: D0 - Poly d) * Poly p = Poly r by rewrite mulrBl -scalerAl E addrC addKr.
+have X0 : adj *: D0 - Poly d = 0.
+  apply/eqP/negPn/negP => HX; move: S; rewrite -EX size_mul // ltnNge => /negP; apply.
+  set X := adj *: D0 - Poly d in HX *.
+  have H0 : (0 < size X)%N by rewrite size_poly_gt0.
+  by move: H0; move: (size (Poly p)) (size X) => n1 n2; lia.
+have Er : Poly r = 0 by rewrite -EX X0 mul0r.
+have Edd : Poly d = adj *: D0 by apply/esym/eqP; rewrite -subr_eq0 X0.
+congr Some; apply/andP; split; first exact/pis_zeroP.
+apply/List.forallb_forall => c /(List.In_nth _ _ 0) [i [_ <-]].
+apply/int_divides_Z_spec; exists D0`_i.
+by rewrite -coef_PolyL Edd coefZ; lia.
+Qed.
+
+Theorem udivides_Z_iff (p q : seq Z) : pnorm p = p -> pnorm q = q -> p <> [::] ->
+  (udivides None false p q = Some true <-> exists d : {poly Z}, Poly q = d * Poly p).
+Proof.
+move=> Hp Hq Hp0; split; first exact: udivides_Z_sound.
+exact: udivides_Z_complete.
+Qed.
